@@ -360,7 +360,7 @@ def hoist_statics(src, fname, report):
                 for (k2, t2, s2, e2) in toks[j + 1:]:
                     if k2 == "id" and t2 == ident[1]:
                         edits.append((bo + s2, bo + e2, new_name))
-                report.append("R3 %s: %s::%s -> file-scope %s" % (fname, name, ident[1], new_name))
+                report.append("R3 %s: %s::%s -> file-scope %s%s" % (fname, name, ident[1], new_name, " [const]" if re.search(r"\bconst\b", decl) else " [mutable]"))
                 i = j
             prev = toks[i][1]
             i += 1
